@@ -889,15 +889,15 @@ func TestVerifC08(t *testing.T) {
 					if bl == "same-hash" {
 						bl = ka + "-vs-" + kb
 					}
-					vc.add("eq-asymmetric:"+bl, len(a.canon)+len(b.canon), fmt.Sprintf("eq %s %s is %v but eq %s %s is %v", a.name, b.name, eab, b.name, a.name, eba))
+					vc.add("eq-asymmetric:"+bl, (len(a.canon)+len(b.canon))*100+min(99, len(a.name)+len(b.name)), fmt.Sprintf("eq %s %s is %v but eq %s %s is %v", a.name, b.name, eab, b.name, a.name, eba))
 				}
 				sameHash := hashes[i] == hashes[j]
 				if eab || eba {
 					bl := c08Blame(a.v, b.v)
 					if !sameHash {
-						vc.add("hash-differs:"+bl, len(a.canon)+len(b.canon), fmt.Sprintf("eq %s %s is true but Hash is %#x for the first and %#x for the second", a.name, b.name, hashes[i], hashes[j]))
+						vc.add("hash-differs:"+bl, (len(a.canon)+len(b.canon))*100+min(99, len(a.name)+len(b.name)), fmt.Sprintf("eq %s %s is true but Hash is %#x for the first and %#x for the second", a.name, b.name, hashes[i], hashes[j]))
 					}
-					mine = append(mine, c08Pair{a: a, b: b, ia: i, ib: j, rel: rel, blame: bl, size: len(a.canon) + len(b.canon)})
+					mine = append(mine, c08Pair{a: a, b: b, ia: i, ib: j, rel: rel, blame: bl, size: (len(a.canon)+len(b.canon))*100 + min(99, len(a.name)+len(b.name))})
 					if rel == "different-value" {
 						mu.Lock()
 						x, y := a.canon, b.canon
@@ -944,6 +944,7 @@ func TestVerifC08(t *testing.T) {
 			for _, i := range first {
 				pairs[i].rep = true
 			}
+			c.Set("representative_eq_pairs", len(first))
 		}
 		vc.flush(c)
 		fmt.Printf("INFO c08 layer pairs done: %d eq ordered pairs, %v\n", len(pairs), time.Since(t0))
